@@ -91,6 +91,8 @@ def _diff(got, want: bytes):
         return "malformed"
     w = rb58.check_decode(want)
     names = [n for n, a, b in FIELDS if p[a:b] != w[a:b]]
+    if ("key" in names or "chaincode" in names) and "fingerprint" in names:
+        names.remove("fingerprint")  # a wrong parent key implies a wrong fingerprint: same root cause
     return "+".join(names) or "encoding"
 
 
@@ -319,7 +321,7 @@ def check_compose(case):
     s0 = start.string()
     whole = attempt(whd.derive_from_path, ref.fmt_path(head, path), s0)
     d = _diff(whole, want.string())
-    f.expect(d is None, f"compose/path-ne-reference/{case['mode']}-{sc}/{d}", f"{whole!r} want {want.string()!r}")
+    f.expect(d is None, f"compose/path-ne-reference/{case['mode']}/{d}", f"{whole!r} want {want.string()!r}")
     # the statement is library-vs-library; fall back to the reference when the whole-path call gave nothing usable
     if isinstance(whole, (bytes, bytearray)) and rb58.check_decode(bytes(whole)) is not None:
         base, label = bytes(whole), "path"
@@ -404,16 +406,19 @@ def check_serialise(case):
     return cls, f
 
 
-def _check_accept(f, b32, s, x, tag):
-    """deserialized_extended_key(s) must return the fields of the reference key x, in both forms."""
+def _check_accept(f, b32, s, x, tag, label=""):
+    """deserialized_extended_key(s) must return the fields of the reference key x, in both forms.
+    label (the mutation applied) is part of the signature only when a valid key is refused."""
     version = ref.VER[(x.net, x.kind)]
     t = attempt(b32.deserialized_extended_key, s)
+    tuple_ok = False
     if raised(t):
-        f.add(f"{tag}/valid-rejected/{x.kind}", f"{t!r} on {s!r}")
+        f.add(f"{tag}/valid-rejected/{x.kind}{label}", f"{t!r} on {s!r}")
     else:
         want_t = (version, bytes([x.depth]), x.fp, x.child.to_bytes(4, "big"), x.cc, x.key)
         got_t = tuple(_pt(v) if isinstance(v, (tuple, list)) else v for v in t) if isinstance(t, (tuple, list)) else t
-        if got_t != want_t:
+        tuple_ok = got_t == want_t
+        if not tuple_ok:
             names = ["version", "depth", "fingerprint", "child", "chaincode", "key"]
             bad = (
                 "+".join(n for n, g, w in zip(names, got_t, want_t) if g != w)
@@ -425,7 +430,7 @@ def _check_accept(f, b32, s, x, tag):
     if raised(dct):
         if not raised(t):
             f.add(f"{tag}/dict-form-rejected/{x.kind}", f"{dct!r}")
-    else:
+    elif tuple_ok or raised(t):
         want_d = {
             "version": version.hex(),
             "depth": x.depth,
@@ -489,7 +494,7 @@ def check_reject(case):
             cls.append("expect-accept:unmutated")
         else:
             cls.append("nt:expect-accept:" + mut)
-        _check_accept(f, b32, s, x, "reject/valid:" + mut)
+        _check_accept(f, b32, s, x, "reject/valid", "/" + mut)
     return cls, f
 
 
@@ -596,35 +601,35 @@ def targets(tier):
             "derive",
             check_derive,
             strategy=derive_cases,
-            budget={"quick": 176, "thorough": 4000},
+            budget={"quick": 160, "thorough": 4000},
             required=["nt:mixed-hardened-plain", "nt:idx-max-plain", "nt:idx-min-hardened", "nt:idx-max-hardened", "net:main", "net:test", "depth-0", "all-plain", "all-hardened"],
         ),
         Target(
             "commute",
             check_commute,
             strategy=lambda tier: commute_cases(tier),
-            budget={"quick": 256, "thorough": 5000},
+            budget={"quick": 224, "thorough": 5000},
             required=["nt:pub-vs-priv", "nt:hardened-from-public", "nt:plain-index", "nt:hardened-index", "nt:start-non-root", "start-root"],
         ),
         Target(
             "compose",
             check_compose,
             strategy=lambda tier: compose_cases(tier),
-            budget={"quick": 96, "thorough": 1600},
+            budget={"quick": 80, "thorough": 1600},
             required=["mode:pub", "mode:prv", "nt:split-inner", "nt:split-empty-prefix", "nt:split-empty-suffix", "nt:start-non-root", "start-root"],
         ),
         Target(
             "serialise",
             check_serialise,
             strategy=lambda tier: serialise_cases(),
-            budget={"quick": 3200, "thorough": 60000},
+            budget={"quick": 2400, "thorough": 60000},
             required=["kind:prv", "kind:pub", "form:bytes-args", "form:depth-int", "form:child_no-int", "nt:depth-0", "nt:depth-255", "net:test"],
         ),
         Target(
             "reject",
             check_reject,
             strategy=lambda tier: reject_cases(),
-            budget={"quick": 6400, "thorough": 120000},
+            budget={"quick": 4800, "thorough": 120000},
             required=["nt:expect-reject:" + r for r in REJECT_REASONS]
             + ["nt:expect-accept:chaincode", "nt:expect-accept:fingerprint", "nt:expect-accept:key-prefix", "nt:official-invalid-key", "expect-accept:unmutated"],
         ),
